@@ -924,6 +924,22 @@ func (fr *Frame) contractCall(ct *Contract, fn *ssa.Function, args []Value, pc *
 		g := ex.proveSpec(cl.Exprs[0], info, env, pc)
 		ex.oblige("call-requires", fmt.Sprintf("%s.%d", contractName(ct), cl.Index), pos, pc, g, "requires "+cl.Text)
 	}
+	if contains(ex.curProps, "C18") && ex.dry == 0 {
+		saved := ex.clauseProps
+		ex.clauseProps = []string{"C18"}
+		for _, key := range ct.Acquires {
+			if rank, ok := ex.ctx.lockRank[key]; ok {
+				ex.checkRankFree(st, key+" (by "+contractName(ct)+")", rank, pc, pos)
+			}
+			if rc := ex.ctx.contractFor(ex.root); rc != nil {
+				ex.oblige("lock", "declared "+key+" via "+contractName(ct), pos, pc, Bool(contains(rc.Acquires, key)), "the contract's acquires clause lists "+key+" (acquired by the callee "+contractName(ct)+")")
+			}
+		}
+		if ct.Exclusive {
+			ex.exclusiveCall(fr, ct, fr.curSite, pc, pos)
+		}
+		ex.clauseProps = saved
+	}
 	pre := st.clone()
 	savedPending := ex.pendingPtrs
 	ex.pendingPtrs = nil
@@ -1188,4 +1204,38 @@ func refOf(v Value) *Term {
 		}
 	}
 	panic(fmt.Sprintf("contract: %T is not a reference", v))
+}
+
+// exclusiveCall: a callee that needs exclusive access to its receiver may only
+// be called on an object owned by the caller's goroutine role (declared with
+// `field T.f owned_by role,...`), or from a function that is itself exclusive
+// on the same object, or on an object the caller allocated itself.
+func (ex *Exec) exclusiveCall(fr *Frame, ct *Contract, site *ssa.Call, pc *Term, pos token.Pos) {
+	rc := ex.ctx.contractFor(ex.root)
+	role := ""
+	if rc != nil {
+		role = rc.Role
+	}
+	okStatic := false
+	what := "?"
+	if site != nil && len(site.Call.Args) > 0 {
+		what = ex.ctx.fieldName(site.Call.Args[0])
+		if d, ok := ex.ctx.fieldDisc[what]; ok && d.Kind == "owned_by" {
+			for _, r := range strings.Split(d.Arg, ",") {
+				if r == role && role != "" {
+					okStatic = true
+				}
+			}
+		}
+		// receiver is the root's own receiver and the root is exclusive too
+		if rc != nil && rc.Exclusive {
+			if p, ok := site.Call.Args[0].(*ssa.UnOp); ok {
+				if al, ok := p.X.(*ssa.Alloc); ok && len(fr.fn.Params) > 0 && al.Comment == fr.fn.Params[0].Name() {
+					okStatic = true
+				}
+			}
+		}
+	}
+	ex.oblige("lock", "exclusive "+contractName(ct)+" on "+what, pos, pc, Bool(okStatic),
+		contractName(ct)+" needs exclusive access to its receiver: the object must be owned by this goroutine role ("+role+")")
 }
